@@ -55,6 +55,8 @@ ETA = [
          "eta-expansion of a datatype constructor used as a function value"),
     AppendArg("B72", r"\.to\(", OG, "OpaqueIpcMessage::to (unit U7) as a stub that records what was decoded", min_count=1),
     CtorClosure(),
+    Rule("D35", r"Err\(From::from\((\w+)\)\)", r"Err(\1)", "`?` written out: the platform stubs of this unit already return the converted error type, so the conversion is the identity"),
+    Rule("D35", r"Err\((?:IpcError|TryRecvError|io::Error|bincode::Error)::from\((\w+)\)\)", r"Err(\1)", "same, with the target type named"),
 ]
 def recv_fn(name, kind, err_wrap, props):
     return Fn(F, [RCV, name], ret="r", extra_params=TO,
